@@ -38,7 +38,8 @@ def gen(rng):
         ok = ok and exact_double(scale) and exact_double(bias)
         if not ok: continue
         return {'s': s_, 'nw': nw, 'nf': nf, 'r': rng.choice(RMODES), 'o': rng.choice(OMODES), 'scale': scale, 'bias': bias, 'vs': vs, 'ts': ts,
-                'route': rng.choice(['ctor', 'call', 'set_val']), 'carrier': rng.choice(['float', 'int', 'int', 'npint', 'listint'])}
+                'route': rng.choice(['ctor', 'call', 'set_val']), 'carrier': rng.choice(['float', 'int', 'int', 'npint', 'listint', 'np:uint8', 'np:int8', 'np:int16', 'np:uint16', 'np:uint32', 'np:uint64', 'np:float32']),
+                'pyint_params': rng.random() < 0.5}      # integral scale / bias passed as Python ints (not floats)
 
 def jcase(c):
     return {k: (str(v) if isinstance(v, Fraction) else ([str(t) for t in v] if isinstance(v, list) else v)) for k, v in c.items()}
@@ -53,12 +54,21 @@ def run_cases(cases, res):
     pend = []; reqs = []
     for c in cases:
         kw = dict(rounding=c['r'], overflow=c['o'], scale=float(c['scale']), bias=float(c['bias']))
+        if c.get('pyint_params'):
+            if c['scale'].denominator == 1: kw['scale'] = int(c['scale'])
+            if c['bias'].denominator == 1: kw['bias'] = int(c['bias'])
         val = [float(v) for v in c['vs']]
         if c.get('carrier', 'float') != 'float' and all(v.denominator == 1 for v in c['vs']):
             ints = [int(v) for v in c['vs']]
             val = ints if c['carrier'] != 'npint' else np.array(ints, dtype=np.int64)
             if c['carrier'] == 'int' and len(ints) > 1: val = ints
         if isinstance(val, list) and len(val) == 1: val = val[0]
+        if str(c.get('carrier', '')).startswith('np:'):
+            dt = np.dtype(c['carrier'][3:]); fl = [float(v) for v in c['vs']]
+            try:
+                ok = all(Fraction(float(dt.type(int(v) if dt.kind in 'iu' else v))) == Fraction(v) for v in fl) and (dt.kind == 'f' or all(v.denominator == 1 for v in c['vs']))
+            except (OverflowError, ValueError): ok = False
+            if ok: val = np.array([int(v) for v in fl] if dt.kind in 'iu' else fl, dtype=dt) if len(fl) > 1 else dt.type(int(fl[0]) if dt.kind in 'iu' else fl[0])
         try:
             if c['route'] == 'ctor': x = fx.Fxp(val, c['s'], c['nw'], c['nf'], **kw)
             else:
@@ -68,6 +78,11 @@ def run_cases(cases, res):
                 else: x.set_val(val)
             obs = {'codes': lib.codes_of(x), 'get': lib.vals_of(x.get_val()), 'upper': Fraction(x.upper), 'lower': Fraction(x.lower), 'prec': Fraction(x.precision),
                    'status': lib.status3(x)}
+            # a raw write of the same codes, then a widening resize: the object keeps its scaling (reading, limits)
+            x.set_val(np.array(obs['codes']) if len(obs['codes']) > 1 else obs['codes'][0], raw=True)
+            obs['get_after_raw'] = lib.vals_of(x.get_val())
+            x.resize(n_word=c['nw'] + 2)
+            obs['after_resize'] = (lib.codes_of(x), lib.vals_of(x.get_val()), Fraction(x.upper), Fraction(x.lower), Fraction(x.precision))
         except Exception as e:
             res.fail(jcase(c), 'C17: storing into a scaled object raised %s' % lib.exc_name(e), got=str(e)[:200]); continue
         pend.append((c, obs))
@@ -88,6 +103,13 @@ def run_cases(cases, res):
         up, low = c['scale'] * (hi * lsb) + c['bias'], c['scale'] * (lo * lsb) + c['bias']
         if all(exact_double(t) for t in (up, low, c['scale'] * lsb, c['scale'] * hi * lsb, c['scale'] * lo * lsb)) and (obs['upper'], obs['lower'], obs['prec']) != (up, low, c['scale'] * lsb):
             res.fail(jcase(c), 'C17: upper/lower/precision are not the unscaled ones mapped through the affine map', expected=(str(up), str(low), str(c['scale'] * lsb)), got=(str(obs['upper']), str(obs['lower']), str(obs['prec']))); continue
+        if all(exact_double(c['scale'] * (Fraction(cd) * lsb)) and exact_double(w) for cd, w in zip(obs['codes'], want_get)):
+            if obs['get_after_raw'] != want_get:
+                res.fail(jcase(c), 'C17: after a raw write of the same codes the value read back is not scale*code*2^-n_frac + bias', expected=[str(w) for w in want_get], got=[str(g) for g in obs['get_after_raw']]); continue
+            lo2, hi2 = S.fmt_bounds(c['s'], c['nw'] + 2); up2, low2 = c['scale'] * (hi2 * lsb) + c['bias'], c['scale'] * (lo2 * lsb) + c['bias']
+            rc, rg, ru, rl, rp = obs['after_resize']
+            if all(exact_double(t) for t in (up2, low2, c['scale'] * lsb, c['scale'] * hi2 * lsb, c['scale'] * lo2 * lsb)) and (rc != obs['codes'] or rg != want_get or (ru, rl, rp) != (up2, low2, c['scale'] * lsb)):
+                res.fail(jcase(c), 'C17: after a raw write and a widening resize the object lost its scaling (value or upper/lower/precision)', expected=(obs['codes'], str(up2), str(low2), str(c['scale'] * lsb)), got=(rc, [str(g) for g in rg], str(ru), str(rl), str(rp))); continue
         if obs['status'] != (so, su, si):
             res.fail(jcase(c), 'C17: flags differ from those of the unscaled value (v - bias)/scale', expected=(so, su, si), got=obs['status']); continue
         kind, rd = outcome(outs[2 * i + 1])
